@@ -180,12 +180,14 @@ func c05RunProxy(env *c05ProxyEnv, c c05ProxyCase) (out c05Out) {
 	}()
 	var pan any
 	returned := false
+	closeBegun, closeReturned := false, false
 	t0 := time.Now()
 	orphaned := 0 // consecutive observations of "Proxy waits, no halfPipe alive"
 	for !returned {
 		select {
 		case pan = <-pdone:
 			returned = true
+			closeBegun, closeReturned = client.closeState() // at the moment Proxy returned
 		case <-time.After(300 * time.Millisecond):
 			gs, inPipe, inWait := c05RelayGoroutines()
 			if inWait && !inPipe {
@@ -265,6 +267,7 @@ func c05RunProxy(env *c05ProxyEnv, c c05ProxyCase) (out c05Out) {
 		}
 		return
 	}
+	fail := func(k, m string) { out.viols = append(out.viols, c05Viol{k, m}) }
 	// down: covert -> client
 	var accepted int64
 	var readN int
@@ -277,14 +280,12 @@ func c05RunProxy(env *c05ProxyEnv, c c05ProxyCase) (out c05Out) {
 			accepted += int64(e.N)
 			if !failed {
 				if e.Bad >= 0 {
-					out.key, out.msg = "stream:offered-differs-from-read", fmt.Sprintf("down: %s offers bytes that are not the next bytes of the covert's reply (first difference at stream offset %d)", c05Describe(e), e.Off+e.Bad)
-					return
+					fail("stream:offered-differs-from-read", fmt.Sprintf("down: %s offers bytes that are not the next bytes of the covert's reply (first difference at stream offset %d)", c05Describe(e), e.Off+e.Bad))
 				}
 				offered = e.Off + e.Len
 			}
 			if e.BadDl >= 0 {
-				out.key, out.msg = "stream:delivered-not-a-prefix", fmt.Sprintf("down: %s makes the client accept bytes that do not continue what it already has", c05Describe(e))
-				return
+				fail("stream:delivered-not-a-prefix", fmt.Sprintf("down: %s makes the client accept bytes that do not continue what it already has", c05Describe(e)))
 			}
 			if e.Err != "" || e.N < e.Len {
 				failed = true
@@ -302,24 +303,20 @@ func c05RunProxy(env *c05ProxyEnv, c c05ProxyCase) (out c05Out) {
 		}
 	}
 	if offered > res.sent {
-		out.key, out.msg = "stream:offered-more-than-read", fmt.Sprintf("down: %d bytes offered to the client, the covert only sent %d", offered, res.sent)
-		return
+		fail("stream:offered-more-than-read", fmt.Sprintf("down: %d bytes offered to the client, the covert only sent %d", offered, res.sent))
 	}
 	if c.Mode == "reply-fin" && !sawWriteFail && !sawDLFail && !sawReadFail && res.sent == replyTotal && res.recvN == c.Client.total() {
 		set["down:complete-demanded"] = true
 		if offered != replyTotal {
-			out.key, out.msg = "dropped:download", fmt.Sprintf("down: the covert sent %d bytes and closed with FIN, nothing else failed, but only %d bytes were offered to the client", replyTotal, offered)
-			return
+			fail("dropped:download", fmt.Sprintf("down: the covert sent %d bytes and closed with FIN, nothing else failed, but only %d bytes were offered to the client", replyTotal, offered))
 		}
 	}
 	// up: client -> covert
 	if res.recvBad >= 0 {
-		out.key, out.msg = "stream:offered-differs-from-read", fmt.Sprintf("up: the covert received bytes that are not the bytes client.Read returned (first difference at stream offset %d)", res.recvBad)
-		return
+		fail("stream:offered-differs-from-read", fmt.Sprintf("up: the covert received bytes that are not the bytes client.Read returned (first difference at stream offset %d)", res.recvBad))
 	}
 	if res.recvN > readN {
-		out.key, out.msg = "stream:offered-more-than-read", fmt.Sprintf("up: the covert received %d bytes, client.Read returned only %d", res.recvN, readN)
-		return
+		fail("stream:offered-more-than-read", fmt.Sprintf("up: the covert received %d bytes, client.Read returned only %d", res.recvN, readN))
 	}
 	graceful := c.Mode == "sink" && !sawWriteFail && !sawDLFail
 	if graceful {
@@ -335,31 +332,52 @@ func c05RunProxy(env *c05ProxyEnv, c c05ProxyCase) (out c05Out) {
 					break
 				}
 			}
-			out.key, out.msg = k, fmt.Sprintf("up: client.Read returned %d bytes, the last %d of them %s never reached the covert although it was reading until the station closed (it saw %q after %d bytes)", readN, readN-res.recvN, what, res.readErr, res.recvN)
-			return
+			fail(k, fmt.Sprintf("up: client.Read returned %d bytes, the last %d of them %s never reached the covert although it was reading until the station closed (it saw %q after %d bytes)", readN, readN-res.recvN, what, res.readErr, res.recvN))
 		}
+	}
+	// why did the tunnel end? Only a failure of one side may end it.
+	clientQuiet := !sawWriteFail && !sawDLFail && !sawReadFail
+	if c.Mode == "sink" && clientQuiet {
+		// the covert never ends first and no call on the client connection failed
+		fail("ended-without-failure", fmt.Sprintf("the tunnel was torn down although neither side had failed: the covert was reading until the station closed, and no Read / Write / SetDeadline on the client connection returned an error (client.Read had returned %d of %d scripted bytes, %d reached the covert); the rest of the stream is lost", readN, c.Client.total(), res.recvN))
+	}
+	downFirst := (c.Mode == "reply-fin" || c.Mode == "reply-rst") && clientQuiet && c.Await == c.Client.total()
+	if downFirst {
+		// the covert ends the tunnel only after it got Await bytes, and nothing on the client side failed
+		set["down-ends-first"] = true
+		if res.recvN < c.Await {
+			fail("ended-without-failure", fmt.Sprintf("the upload was cut off although neither side had failed: the covert was waiting for %d bytes before answering, got %d and then saw %q; no call on the client connection returned an error", c.Await, res.recvN, res.readErr))
+		}
+	}
+	// teardown at the moment Proxy returned. Each direction closes its destination synchronously
+	// before it signals the WaitGroup (only the source is closed asynchronously), so: Close of the
+	// client connection has at least been called; and where the download direction ends first its
+	// own Close call is the first one on the client connection and has returned.
+	if !closeBegun {
+		fail("teardown:waitgroup-released-before-close", "Proxy returned although Close had not yet been called on the client connection")
+	} else if downFirst && res.recvN == c.Await && !closeReturned {
+		fail("teardown:waitgroup-released-before-close", fmt.Sprintf("Proxy returned while the download direction's Close of the client connection (lingering %d ms) was still in progress: the tunnel is reported closed and the session gauge lowered while a goroutine is still inside Close", c.Client.CloseMs))
 	}
 	for t0 := time.Now(); !client.isClosed() && time.Since(t0) < 5*time.Second; {
 		time.Sleep(200 * time.Microsecond)
 	}
 	if !client.isClosed() {
-		out.key, out.msg = "teardown:connection-left-open", "the client connection was never closed"
-		return
+		fail("teardown:connection-left-open", "the client connection was never closed")
 	}
 	if c.Mode == "sink" && res.readErr == "" {
 		return c05Out{key: "harness", msg: "sink covert ended without a read result"}
 	}
 	// counters
 	if sum.BytesDown != accepted {
-		out.key, out.msg = "stats:tunnel-bytes", fmt.Sprintf("tunnel summary BytesDown=%d but the client connection accepted %d bytes", sum.BytesDown, accepted)
-		return
+		fail("stats:tunnel-bytes", fmt.Sprintf("tunnel summary BytesDown=%d but the client connection accepted %d bytes", sum.BytesDown, accepted))
 	}
 	if sum.BytesUp < int64(res.recvN) || sum.BytesUp > int64(readN) || (graceful && sum.BytesUp != int64(res.recvN)) {
-		out.key, out.msg = "stats:tunnel-bytes", fmt.Sprintf("tunnel summary BytesUp=%d, the covert received %d bytes, client.Read returned %d (graceful=%v)", sum.BytesUp, res.recvN, readN, graceful)
-		return
+		fail("stats:tunnel-bytes", fmt.Sprintf("tunnel summary BytesUp=%d, the covert received %d bytes, client.Read returned %d (graceful=%v)", sum.BytesUp, res.recvN, readN, graceful))
 	}
-	out.key, out.msg = c05CheckCounts([2]int64{sum.BytesUp, sum.BytesDown}, sum.BytesUp, sum.BytesDown, pre, post)
-	if out.key == "" && atomic.LoadInt64(&reg.tunnelCount) != atomic.LoadInt64(&env.reg.tunnelCount)+1 {
+	if k, m := c05CheckCounts([2]int64{sum.BytesUp, sum.BytesDown}, sum.BytesUp, sum.BytesDown, pre, post); k != "" {
+		fail(k, m)
+	}
+	if atomic.LoadInt64(&reg.tunnelCount) != atomic.LoadInt64(&env.reg.tunnelCount)+1 {
 		return c05Out{key: "harness", msg: "tunnel count did not advance"}
 	}
 	return
@@ -373,6 +391,9 @@ func c05ProxyCheck(t vh.Fataler, rec *vh.Rec, env *c05ProxyEnv, c c05ProxyCase) 
 	}
 	if o.key != "" {
 		rec.Violation(t, o.key, c, "%s [Proxy level, covert mode %s]", o.msg, c.Mode)
+	}
+	for _, v := range o.viols {
+		rec.Violation(t, v.key, c, "%s [Proxy level, covert mode %s]", v.msg, c.Mode)
 	}
 }
 
@@ -389,22 +410,23 @@ func c05ProxyGen(rt *rapid.T) c05ProxyCase {
 	}
 	s := &c.Client
 	for i, n := 0, rapid.IntRange(0, 5).Draw(rt, "steps"); i < n; i++ {
-		s.Reads = append(s.Reads, c05Step{N: rapid.SampledFrom(c05ProxySizes).Draw(rt, "size")})
+		st := c05Step{N: rapid.SampledFrom(c05ProxySizes).Draw(rt, "size")}
+		if rapid.IntRange(0, 5).Draw(rt, "zero") == 0 {
+			st.N = 0 // a zero-length read without error
+		}
+		s.Reads = append(s.Reads, st)
 	}
 	switch c.Mode {
 	case "sink":
 		// the client's read side ends the tunnel
 		s.End = rapid.SampledFrom([]string{"eof", "eof", "reset", "timeout", "eio"}).Draw(rt, "end")
-		if n := len(s.Reads); n > 0 && rapid.Bool().Draw(rt, "lastWithErr") {
+		if n := len(s.Reads); n > 0 && s.Reads[n-1].N > 0 && rapid.Bool().Draw(rt, "lastWithErr") {
 			s.Reads[n-1].Err = s.End
 		}
 		if replyTotal > 0 {
 			// the client's first Read waits until the whole reply was relayed, so that the station
 			// never closes the covert socket with unread data (the kernel would answer with RST)
-			if len(s.Reads) == 0 {
-				s.Reads = []c05Step{{N: 1}}
-			}
-			s.Reads[0].Wait = replyTotal
+			s.Reads = append([]c05Step{{N: 1, Wait: replyTotal}}, s.Reads...)
 		}
 	case "reply-fin", "reply-rst":
 		s.End = "hold"
@@ -428,13 +450,16 @@ func c05ProxyGen(rt *rapid.T) c05ProxyCase {
 	if rapid.IntRange(0, 4).Draw(rt, "hasclose") == 0 {
 		s.CloseErr = rapid.SampledFrom([]string{"reset", "timeout", "eio"}).Draw(rt, "closeerr")
 	}
+	if rapid.IntRange(0, 4).Draw(rt, "slowclose") == 0 {
+		s.CloseMs = rapid.IntRange(15, 40).Draw(rt, "closems")
+	}
 	return c
 }
 
 func TestVerif_C05_proxy(t *testing.T) {
-	rec := vh.NewRec("C05", "proxy", "rapid-drawn tunnels through Proxy(): scripted client connection (0-5 upload chunks of 1 B .. 70000 B, optional write fault / SetDeadline fault / Close error, last chunk optionally returned together with EOF or an error) x real loopback TCP covert {sinks the upload until the station closes, replies and closes with FIN, replies and resets with SetLinger(0), refuses the connection} with 0-3 reply writes of 1 B .. 70000 B; non-trivial = an injected fault other than a plain EOF alone was hit, or the covert reset / refused; distinct by case")
+	rec := vh.NewRec("C05", "proxy", "rapid-drawn tunnels through Proxy(): scripted client connection (0-5 upload steps: chunks of 1 B .. 70000 B or, with probability 1/6, a zero-length read without error; optional write fault / SetDeadline fault / Close error / lingering Close of 15-40 ms; last chunk optionally returned together with EOF or an error) x real loopback TCP covert {sinks the upload until the station closes, replies and closes with FIN, replies and resets with SetLinger(0), refuses the connection} with 0-3 reply writes of 1 B .. 70000 B; non-trivial = an injected fault other than a plain EOF alone was hit, or the covert reset / refused; distinct by case")
 	defer rec.Flush()
-	rec.Require("mode:sink", "mode:reply-fin", "mode:reply-rst", "mode:refuse", "up:complete-demanded", "down:complete-demanded", "read:data+eof", "write:short")
+	rec.Require("mode:sink", "mode:reply-fin", "mode:reply-rst", "mode:refuse", "up:complete-demanded", "down:complete-demanded", "down-ends-first", "read:data+eof", "read:zero-length", "close:slow", "write:short")
 	c05QuietStats(t)
 	env := c05NewProxyEnv(t)
 	if p := vh.ReplayFile(); p != "" {
@@ -453,6 +478,11 @@ func TestVerif_C05_proxy(t *testing.T) {
 		{Mode: "reply-fin", Client: c05Script{Reads: []c05Step{{N: 3000}}, End: "hold"}, Await: 3000, Reply: []int{1, 70000}},
 		{Mode: "reply-rst", Client: c05Script{Reads: []c05Step{{N: 3000}}, End: "hold"}, Await: 3000, Reply: []int{5000}},
 		{Mode: "refuse", Client: c05Script{End: "hold"}},
+		{Mode: "sink", Client: c05Script{Reads: []c05Step{{N: 6}, {N: 0}, {N: 5}}, End: "eof"}},
+		{Mode: "reply-fin", Client: c05Script{Reads: []c05Step{{N: 0}, {N: 3000}, {N: 0}, {N: 1}}, End: "hold"}, Await: 3001, Reply: []int{100}},
+		{Mode: "reply-fin", Client: c05Script{Reads: []c05Step{{N: 3000}}, End: "hold", CloseMs: 40, CloseErr: "reset"}, Await: 3000, Reply: []int{8}},
+		{Mode: "reply-rst", Client: c05Script{Reads: []c05Step{{N: 10}}, End: "hold", CloseMs: 40}, Await: 10, Reply: []int{8}},
+		{Mode: "sink", Client: c05Script{Reads: []c05Step{{N: 10}}, End: "eof", CloseMs: 25}},
 	} {
 		c05ProxyCheck(t, rec, env, c)
 	}
